@@ -7,7 +7,7 @@
 From Coq Require Import List NArith Bool.
 From Verif.Common Require Import Packet PolicyRef Labels.
 From Verif.C05 Require Import Model Spec ProofsFilter ProofsProfiles ProofsStep ProofsVerdict ProofsMain ProofsOracle
-  ProofsPolicies ProofsIndex ProofsPolStep ProofsPolMain.
+  ProofsPolicies ProofsIndex ProofsPolStep ProofsPolMain ProofsNoPanic.
 Import ListNotations.
 Open Scope N_scope.
 
@@ -118,6 +118,16 @@ Theorem c05_model_meets_spec_policies : forall (validate : value -> bool) h,
   ok_policies (ds_of validate ds0 h) (view_of (run validate st0 h)) = true.
 Proof. exact model_meets_spec_policies. Qed.
 Print Assumptions c05_model_meets_spec_policies.
+
+(* The calculator never reaches one of its log.Panic branches ("Policy active but missing from allPolicies",
+   "Unknown policy became active!"): for every history of well-typed updates (the value, if any, has the type its
+   key demands), every validator and every callback order, no emitted message is a panic.  With the two
+   model_meets_spec theorems and c05_never_partially_applied this covers every clause of the oracle ok_trace. *)
+Theorem c05_no_panic : forall (validate : value -> bool) h,
+  (forall i, In i h -> wt (i_key i) (i_val i)) ->
+  forallb no_panic (run validate st0 h) = true.
+Proof. exact no_panic_from_start. Qed.
+Print Assumptions c05_no_panic.
 
 (* Non-vacuity for the policy theorems: policy 5 (selector a == "x", tier 9 which does not exist) becomes active
    when endpoint 0 gets the label, is replaced by an invalid version (validate rejects tier 99) -> removed from the
